@@ -58,6 +58,7 @@ let parse_op (s : string) : op =
     let outs = Array.init 4 (fun i -> outcome_of_char s.[i + 1]) in
     OpNotify (fun u -> let i = int_of_z u in if i >= 0 && i < 4 then outs.(i) else OStatus (z_of_int 200))
   | 'Z' when n = 1 -> OpRestart
+  | 'X' when n = 2 && s.[1] >= '0' && s.[1] <= '3' -> OpBad
   | _ -> raise (Malformed "op")
 
 let parse_input (input : string) : coq_Z * bool * op list =
@@ -89,6 +90,7 @@ let str_resp = function
   | RespRow v -> "200:" ^ str_view v
   | RespErr ErrRefreshWebhook -> "400:ErrRefreshWebhook"
   | RespErr ErrWebhookNotFound -> "404:ErrWebhookNotFound"
+  | RespRejected -> "rej"
 let str_post ((u, hs) : post) =
   Printf.sprintf "u%s/POST/json/ok/%s" (dec_of_z u)
     (String.concat "&" (Stdlib.List.sort compare (Stdlib.List.map (fun (h, t) -> str_hname h ^ "=" ^ str_tokv t) hs)))
@@ -122,7 +124,7 @@ let parse_view s : view =
     (((z_of_string e, a = "1"), parse_status st), z_of_string t) end
   else raise (Malformed "view")
 let parse_resp s =
-  if s = "-" then RespNone else if s = "200" then RespOK
+  if s = "-" then RespNone else if s = "200" then RespOK else if s = "rej" then RespRejected
   else if s = "400:ErrRefreshWebhook" then RespErr ErrRefreshWebhook
   else if s = "404:ErrWebhookNotFound" then RespErr ErrWebhookNotFound
   else if String.length s > 4 && String.sub s 0 4 = "200:" then RespRow (parse_view (String.sub s 4 (String.length s - 4)))
@@ -190,6 +192,7 @@ let spec input obs =
          Printf.sprintf "FAIL %s step=%s all=[%s]" (class_name c) (dec_of_z n)
            (String.concat "," (Stdlib.List.map (fun (n, c) -> dec_of_z n ^ ":" ^ class_name c) fs)))
     with
+    | Malformed ("header-name" | "header-value" as w) -> "FAIL auth-header unrecognised " ^ w
     | Malformed w -> "FAIL malformed-observable " ^ w
     | Post_format w -> "FAIL post-format " ^ w
 
